@@ -985,10 +985,12 @@ void flexinit (int argc, char **argv)
 
 		    case OPT_ALWAYS_INTERACTIVE:
 			ctrl.always_interactive = true;
+			ctrl.interactive = trit_true;
 			break;
 
 		    case OPT_NEVER_INTERACTIVE:
 			ctrl.never_interactive = true;
+			ctrl.interactive = trit_false;
 			break;
 
 		    case OPT_ARRAY:
